@@ -29,6 +29,16 @@ type c06faultFS struct {
 	removes             int
 	failOpen            string // Open of this name is refused although Stat answers (no read permission, or a fault in between)
 	opensRefused        int
+	failChmod           bool // Chmod is refused (a file system that does not take the source's mode bits)
+	chmods              int
+}
+
+func (f *c06faultFS) Chmod(name string, mode hackpadfs.FileMode) error {
+	if f.failChmod {
+		f.chmods++
+		return &hackpadfs.PathError{Op: "chmod", Path: name, Err: errC06Fault}
+	}
+	return f.FS.Chmod(name, mode)
 }
 
 func (f *c06faultFS) Remove(name string) error {
@@ -109,6 +119,8 @@ func c06faultCases() []c06faultCase {
 				}
 				cs = append(cs, c06faultCase{Src: src, Dst: dst, DstExists: ex, Side: "remove-source"})
 				cs = append(cs, c06faultCase{Src: src, Dst: dst, DstExists: ex, Side: "open-source"})
+				// the destination refuses the mode fix-up of the copy (the source carries a special bit, so one is needed)
+				cs = append(cs, c06faultCase{Src: src, Dst: dst, DstExists: ex, Side: "chmod-destination", Mode: uint32(fs.ModeSticky|0o644) | 1<<31})
 				// no fault: moved with the same bytes and the whole mode, special bits included
 				for _, m := range []fs.FileMode{0o640, fs.ModeSticky | 0o644, fs.ModeSetuid | 0o755, fs.ModeSetgid | fs.ModeSticky | 0o700, 0} {
 					cs = append(cs, c06faultCase{Src: src, Dst: dst, DstExists: ex, Side: "none", Mode: uint32(m) | 1<<31})
@@ -133,6 +145,8 @@ func c06crossfault(env *core.Env, cs c06case, idx int, res *core.CaseResult) {
 	case "short-write":
 		dstFS.failWrite, dstFS.short = fc.At, true
 	case "none":
+	case "chmod-destination":
+		dstFS.failChmod = true
 	case "open-source":
 		srcFS.failOpen = fc.Src // Stat of the source answers, opening it fails
 	case "remove-source":
@@ -189,7 +203,7 @@ func c06crossfault(env *core.Env, cs c06case, idx int, res *core.CaseResult) {
 	st := fsx.Step{K: "Rename", P: "a/" + fc.Src, P2: "b/" + fc.Dst}
 	var hs fsx.Handles
 	r := fsx.Exec(m, st, &hs, nil)
-	fired := dstFS.writes > dstFS.failWrite && dstFS.failWrite >= 0 || srcFS.reads > srcFS.failRead && srcFS.failRead >= 0 || srcFS.removes > 0 || srcFS.opensRefused > 0
+	fired := dstFS.writes > dstFS.failWrite && dstFS.failWrite >= 0 || srcFS.reads > srcFS.failRead && srcFS.failRead >= 0 || srcFS.removes > 0 || srcFS.opensRefused > 0 || dstFS.chmods > 0
 	res.Count("crossfault_cases", 1)
 	sig := func(what string) string {
 		return fmt.Sprintf("C06|Rename|cross-mount,copy-fault=%s,%s|%s", fc.Side, dk, what)
